@@ -131,6 +131,18 @@ CHECKS.update({
             "DESIGN.md §3 C04"),
 })
 
+CHECKS.update({
+    "C07": ("exploration",
+            "history + executable model ('the package is a function of the design'): call histories replayed on one build, every "
+            "produced package compared with a fresh build (and a fresh process for a sample) that sees only that call",
+            "Per design DAG (hand-written 5-module DAGs, implicit-bundle kernels, seeded random DAGs): every permutation of "
+            "single-module elaborate calls over every subset, every ordered subset as one list call, seeded mixes of elaborate / "
+            "to_proto / netlist with repeats, and late-parent histories where parents are constructed after their children were "
+            "elaborated; intermediate and final, single and list exports are all compared.",
+            "same DesignSpec + same uid = same design; connection order inside an instance is normalised (C12's subject)",
+            "DESIGN.md §3 C07"),
+})
+
 NOT_APPLICABLE = {}
 
 
